@@ -45,6 +45,63 @@ theorem eval_setScal {env : Env} {t : Nat} {v : Rat} {df : Nat} (e : Expr) (h : 
       simp only [usesScal] at h
       simp only [eval, iha h]
 
+/-! ## Integer built-ins stay inside the integers -/
+
+def IsInt (q : Rat) : Prop := ∃ z : Int, q = (z : Rat)
+
+theorem IsInt.neg {a : Rat} (h : IsInt a) : IsInt (-a) := by
+  obtain ⟨z, rfl⟩ := h; exact ⟨-z, by push_cast; rfl⟩
+
+theorem IsInt.fabs {a : Rat} (h : IsInt a) : IsInt (fabs a) := by
+  unfold C20.fabs; split
+  · exact h.neg
+  · exact h
+
+theorem eval_isInt (isInt : Nat → Bool) (env : Env) (df : Nat)
+    (hf : ∀ i, isInt i = true → IsInt (env.fld i df)) (hs : ∀ i, isInt i = true → IsInt (env.scal i))
+    (e : Expr) (h : intValued isInt e = true) : IsInt (eval env df e) := by
+  induction e with
+  | fld i => exact hf i h
+  | scal i => exact hs i h
+  | lit n d =>
+      have hd : d = 1 := by simpa [intValued] using h
+      subst hd
+      exact ⟨n, by simp [eval]⟩
+  | add a b iha ihb =>
+      simp only [intValued, Bool.and_eq_true] at h
+      obtain ⟨x, hx⟩ := iha h.1; obtain ⟨y, hy⟩ := ihb h.2
+      exact ⟨x + y, by simp only [eval, hx, hy]; push_cast; rfl⟩
+  | sub a b iha ihb =>
+      simp only [intValued, Bool.and_eq_true] at h
+      obtain ⟨x, hx⟩ := iha h.1; obtain ⟨y, hy⟩ := ihb h.2
+      exact ⟨x - y, by simp only [eval, hx, hy]; push_cast; rfl⟩
+  | mul a b iha ihb =>
+      simp only [intValued, Bool.and_eq_true] at h
+      obtain ⟨x, hx⟩ := iha h.1; obtain ⟨y, hy⟩ := ihb h.2
+      exact ⟨x * y, by simp only [eval, hx, hy]; push_cast; rfl⟩
+  | sign a b iha ihb =>
+      simp only [intValued, Bool.and_eq_true] at h
+      have ha := (iha h.1).fabs
+      simp only [eval, fsign]; split
+      · exact ha.neg
+      · exact ha
+  | min a b iha ihb =>
+      simp only [intValued, Bool.and_eq_true] at h
+      simp only [eval, fmin]; split
+      · exact ihb h.2
+      · exact iha h.1
+  | max a b iha ihb =>
+      simp only [intValued, Bool.and_eq_true] at h
+      simp only [eval, fmax]; split
+      · exact ihb h.2
+      · exact iha h.1
+  | neg a iha => exact (iha (by simpa [intValued] using h)).neg
+  | abs a iha => exact (iha (by simpa [intValued] using h)).fabs
+  | toReal a iha => exact iha (by simpa [intValued] using h)
+  | toInt a _ => exact ⟨_, rfl⟩
+  | div a b _ _ | pow a b _ _ | mod a b _ _ => simp [intValued] at h
+  | unk k => simp [intValued] at h
+
 /-! ## The loop visits every DoF of `lo .. lo+n-1` exactly once, in order, and no other -/
 
 theorem visits_eq_range' (lo n : Nat) : visits lo n = List.range' lo n := by
